@@ -1,9 +1,6 @@
 package main
 
-// Properties without a registered check yet. Each entry is removed when its rules land;
-// entries that remain at the end are genuinely not decidable by the static rules built.
-func init() {
-	for _, id := range []string{"C03", "C11"} {
-		notApplicable[id] = "static rules for this property are planned in DESIGN.md but not implemented yet; nothing is claimed until they are"
-	}
-}
+// Properties without a registered check. Every property of /verif/properties.jsonl has a registered check
+// (each claims the structural clauses listed in its level text and states what it does not decide),
+// so nothing is listed as not applicable as a whole; the undecided remainder of each property is in DESIGN.md.
+func init() {}
